@@ -193,10 +193,15 @@ func split(vi int, s string) vec {
 }
 func (x vec) join() string { return x.header + strings.Join(x.elems, "/") }
 
+// Wrappers are matched decorations a lenient parser might strip: brackets, quotes, whitespace,
+// the NVD way of printing v2 vectors in parentheses, markup.
+var Wrappers = [][2]string{{"(", ")"}, {"[", "]"}, {"{", "}"}, {"<", ">"}, {"\"", "\""}, {"'", "'"}, {"`", "`"}, {" ", " "}, {"\t", "\n"},
+	{"\n", "\n"}, {"\r\n", "\r\n"}, {"((", "))"}, {"( ", " )"}, {"\ufeff", ""}, {"", "\x00"}, {"<b>", "</b>"}, {"CVSS:", ""}, {"vector=", ""}, {"", ";"}, {"", ","}}
+
 // MutOps lists the mutation operators by name (for labels / evidence).
 var MutOps = []string{"byte-delete", "byte-insert", "byte-replace", "truncate", "append", "prepend",
 	"elem-delete", "elem-duplicate", "elem-swap-adjacent", "elem-move", "abv-replace", "val-replace", "colon-shape",
-	"empty-element", "header-replace", "append-vector", "case-flip", "elem-insert-foreign", "long-insert"}
+	"empty-element", "header-replace", "append-vector", "case-flip", "elem-insert-foreign", "long-insert", "wrap"}
 
 // Mutate applies 1..3 edits to a valid vector and returns the result with the
 // operator names. The result may or may not still be in the language - the
@@ -259,6 +264,9 @@ func apply(t *rapid.T, vi int, s string, op string) string {
 	case "header-replace":
 		h := spec.Versions[vi].Header
 		return pick(t, "header", headers) + strings.TrimPrefix(s, h)
+	case "wrap":
+		w := Wrappers[rapid.IntRange(0, len(Wrappers)-1).Draw(t, "wrapper")]
+		return w[0] + s + w[1]
 	case "long-insert":
 		// a long run (lengths around 2^8 and 2^16: counters that wrap) of one chunk at some position
 		n := []int{200, 255, 256, 257, 300, 1000, 65535, 65536, 65537}[rapid.IntRange(0, 8).Draw(t, "len")]
@@ -542,6 +550,12 @@ func OneEditNeighbourhood(vi int, s string) []string {
 	}
 	for _, h := range headers {
 		out = append(out, h+strings.TrimPrefix(s, x.header))
+	}
+	for _, w := range Wrappers {
+		out = append(out, w[0]+s+w[1])
+		if x.header != "" { // decoration between header and body too
+			out = append(out, x.header+w[0]+strings.TrimPrefix(s, x.header)+w[1])
+		}
 	}
 	return out
 }
